@@ -13,7 +13,6 @@ import (
 	"strings"
 
 	"github.com/youchainhq/go-youchain/common"
-	"github.com/youchainhq/go-youchain/core/state"
 	"github.com/youchainhq/go-youchain/crypto"
 	"github.com/youchainhq/go-youchain/params"
 
@@ -33,10 +32,16 @@ type gen struct {
 	slots []common.Hash
 	txs   []common.Hash
 	weird bool // malformed / boundary value stream
+	tiny  bool // aliasing stream: very few keys, so that both sides of a copy write the SAME records / slots / lists
 }
 
-func newGen(r *vh.RNG, weird bool) *gen {
-	g := &gen{r: r, weird: weird}
+func newGen(r *vh.RNG, weird, tiny bool) *gen {
+	g := &gen{r: r, weird: weird, tiny: tiny}
+	defer func() {
+		if tiny {
+			g.accts, g.vals, g.slots = g.accts[1:3], g.vals[:1+r.Intn(2)], g.slots[1:2]
+		}
+	}()
 	for i := 0; i < 6; i++ {
 		var a common.Address
 		copy(a[:], r.Bytes(20))
@@ -144,7 +149,13 @@ func (g *gen) flag() string {
 func (g *gen) candidate(e *env) string {
 	r := g.r
 	st := e.st
-	switch r.Weighted([]int{8, 8, 5, 5, 5, 10, 3, 3, 5, 6, 8, 10, 4, 4, 3, 6, 4, 1, 2, 3, 7, 5, 4, 5, 3}) {
+	w := []int{8, 8, 5, 5, 5, 10, 3, 3, 5, 6, 8, 10, 4, 4, 3, 6, 4, 1, 2, 3, 7, 5, 4, 5, 3}
+	if g.tiny {
+		// mostly records whose copies hold slices: staking records (tx hash lists), validators (delegation lists),
+		// delegation lists of accounts, withdraw queue, pending relationships, storage
+		w = []int{4, 4, 1, 1, 2, 8, 1, 1, 8, 10, 6, 10, 3, 8, 4, 22, 6, 0, 1, 2, 4, 3, 0, 4, 2}
+	}
+	switch r.Weighted(w) {
 	case 0:
 		return fmt.Sprintf("SB %s %s", hx(g.acct().Bytes()), g.amount())
 	case 1:
@@ -224,7 +235,11 @@ func (g *gen) candidate(e *env) string {
 			return "GV"
 		}
 		nv := old.DeepCopy()
-		switch r.Intn(10) {
+		sub := r.Intn(10)
+		if g.tiny && r.Chance(40) {
+			sub = 9
+		}
+		switch sub {
 		case 0:
 			nv.Status = uint8(1 - int(nv.Status&1))
 		case 1:
@@ -249,9 +264,11 @@ func (g *gen) candidate(e *env) string {
 			nv.AcceptDelegation, nv.CommissionRate, nv.RiskObligation = uint16(r.Intn(2)), uint16(r.Intn(10001)), uint16(g.u64())
 			nv.BlsPubKey = g.bytes(48)
 		case 9:
-			d := g.acct()
 			t := g.amount()
-			nv.UpdateDelegationFrom(&state.DelegationFrom{Delegator: d, Stake: params.YOUToStake(t), Token: t})
+			if r.Chance(25) {
+				t = big.NewInt(0) // removes the link
+			}
+			return fmt.Sprintf("VD %s %s %s", hx(v.addr[:]), hx(g.acct().Bytes()), t)
 		}
 		return "UV " + hx(v.addr[:]) + " " + valFields(nv)
 	case 12:
@@ -285,7 +302,12 @@ func (g *gen) candidate(e *env) string {
 			d = common.Address{} // the "pending validator" record
 		}
 		tx, fv := "-", "nil"
-		if r.Chance(75) {
+		if g.tiny {
+			d = g.accts[0]
+			if r.Chance(85) {
+				tx = hx(r.Bytes(32)) // a fresh hash each time: a clobbered list entry cannot go unnoticed
+			}
+		} else if r.Chance(75) {
 			tx = hx(g.txs[r.Intn(len(g.txs))].Bytes())
 		}
 		if r.Chance(75) {
@@ -352,17 +374,49 @@ func runLines(drv *vh.Driver, lines []string) *caseResult {
 	return cr
 }
 
-func genCase(drv *vh.Driver, r *vh.RNG, weird bool, nOps int) *caseResult {
+func genCase(drv *vh.Driver, r *vh.RNG, weird, tiny bool, nOps int) *caseResult {
 	e, err := newEnv(drv)
 	if err != nil {
 		return &caseResult{fails: []failure{{"crash", err.Error()}}}
 	}
-	g := newGen(r, weird)
+	g := newGen(r, weird, tiny)
 	var done []string
+	forkAt := -1
+	if tiny {
+		forkAt = r.Range(2, nOps*2/3+2)
+	} else if r.Chance(30) {
+		forkAt = r.Range(1, nOps)
+	}
 	for i := 0; i < nOps && len(e.fails) == 0; i++ {
+		if i == forkAt {
+			if tiny && r.Chance(45) {
+				// records loaded from the trie (decoded slices have spare capacity), then copied
+				l := []string{"RO mem 1", "RO disk 1", "CM 1"}[r.Intn(3)]
+				if e.exec(l) {
+					done = append(done, l)
+				}
+			}
+			if e.exec("CB") {
+				done = append(done, "CB")
+			}
+		}
 		l := g.candidate(e)
+		if strings.HasPrefix(l, "CP") && e.twin != nil && r.Bool() {
+			l = "GV"
+		}
 		if e.exec(l) {
 			done = append(done, l)
+		}
+		if e.twin != nil && len(e.fails) == 0 {
+			// the copy gets its own write, generated against ITS state from the same small key pools
+			e.twin.drv = e.drv
+			l2 := g.candidate(e.twin)
+			if strings.HasPrefix(l2, "CB") {
+				l2 = "GV"
+			}
+			if e.exec("@1 " + l2) {
+				done = append(done, "@1 "+l2)
+			}
 		}
 	}
 	cr := &caseResult{lines: done, e: e}
@@ -375,9 +429,17 @@ func genCase(drv *vh.Driver, r *vh.RNG, weird bool, nOps int) *caseResult {
 
 // ---- permuted / regrouped rebuilds ---------------------------------------------------------------------------------------
 
+func side(l string) (string, string) {
+	if strings.HasPrefix(l, "@1 ") {
+		return "1", l[3:]
+	}
+	return "0", l
+}
+
 func isControl(l string) bool {
+	_, l = side(l)
 	switch strings.Fields(l)[0] {
-	case "FIN", "IR", "CM", "CP", "RO", "OBS", "GV", "RS":
+	case "FIN", "IR", "CM", "CP", "CB", "RO", "OBS", "GV", "RS":
 		return true
 	}
 	return false
@@ -393,7 +455,7 @@ func footprint(l string) []string {
 		return []string{"a" + f[1]}
 	case "DG":
 		return []string{"a" + f[1], "v" + f[2], "stat"}
-	case "CV", "UV":
+	case "CV", "UV", "VD":
 		return []string{"v" + f[1], "stat"}
 	case "SR":
 		return []string{"stat"}
@@ -408,10 +470,18 @@ func footprint(l string) []string {
 }
 
 func independent(a, b string) bool {
+	sa, la := side(a)
+	sb, lb := side(b)
+	if la == "CB" || lb == "CB" {
+		return false
+	}
+	if sa != sb {
+		return true // different StateDBs after a copy: every pair of operations commutes
+	}
 	if isControl(a) || isControl(b) {
 		return false
 	}
-	fa, fb := footprint(a), footprint(b)
+	fa, fb := footprint(la), footprint(lb)
 	for _, x := range fa {
 		for _, y := range fb {
 			if x == y || x == "*" || y == "*" {
@@ -442,7 +512,8 @@ func permute(r *vh.RNG, lines []string) []string {
 func regroup(r *vh.RNG, lines []string) []string {
 	var out []string
 	for _, l := range lines {
-		switch strings.Fields(l)[0] {
+		sd, bare := side(l)
+		switch strings.Fields(bare)[0] {
 		case "FIN", "IR", "CM", "CP", "RO", "OBS", "GV":
 			if r.Chance(70) {
 				continue
@@ -450,7 +521,11 @@ func regroup(r *vh.RNG, lines []string) []string {
 		}
 		out = append(out, l)
 		if r.Chance(12) {
-			out = append(out, []string{"FIN 1", "IR 1", "CM 1", "RO mem 1", "RO disk 1", "CP c", "CP o", "GV"}[r.Intn(8)])
+			x := []string{"FIN 1", "IR 1", "CM 1", "RO mem 1", "RO disk 1", "CP c", "CP o", "GV"}[r.Intn(8)]
+			if sd == "1" {
+				x = "@1 " + x
+			}
+			out = append(out, x)
 		}
 	}
 	return out
@@ -538,17 +613,29 @@ func run(c *vh.Ctx) error {
 	for ci := 0; ci < nCases && reported < 6; ci++ {
 		r := c.R.Fork()
 		weird := ci%5 == 4
+		tiny := ci%5 == 2 || ci%5 == 0
 		nOps := r.Range(10, 70)
-		cr := genCase(drv, r, weird, nOps)
+		if tiny {
+			nOps = r.Range(8, 40)
+		}
+		cr := genCase(drv, r, weird, tiny, nOps)
 		e := cr.e
 		if e == nil {
 			return fmt.Errorf("cannot create a state: %v", cr.fails)
 		}
-		nontrivial := e.touchedVal && e.touchedA && (e.nRO+e.nCP) >= 2
+		nontrivial := e.touchedVal && e.touchedA && (e.nRO+e.nCP+e.nCB) >= 2
 		res.Count(strings.Join(cr.lines, "\n"), nontrivial)
-		res.TracesVsImpl += e.nIR + e.nCM + 2*e.nRO + e.nCP
+		res.TracesVsImpl += e.nIR + e.nCM + 2*e.nRO + e.nCP + 2*e.nCB
 		for _, l := range cr.lines {
-			res.Dist("op-" + strings.Fields(l)[0])
+			sd, bare := side(l)
+			if sd == "1" {
+				res.Dist("op-on-copy-" + strings.Fields(bare)[0])
+			} else {
+				res.Dist("op-" + strings.Fields(bare)[0])
+			}
+		}
+		if tiny {
+			res.Dist("case-aliasing-stream")
 		}
 		res.DistN("skipped-by-guard", e.skipped)
 		if weird {
@@ -611,7 +698,7 @@ func run(c *vh.Ctx) error {
 	}
 	res.Extra["rebuild_pairs"] = map[string]int{"permuted": perms, "permuted_same_content": permSame, "regrouped": pairs, "regrouped_same_content": samePairs}
 	res.Partial = append(res.Partial,
-		"independence of a Copy from its original is an aliasing property: value semantics in the model, observed on the real objects by mutate-one-side-and-compare",
+		"independence of a Copy from its original is an aliasing property: value semantics in the model, observed on the real objects (one side frozen, or BOTH sides written on the same keys and each compared with its own model state)",
 		"blank accounts (no nonce, balance, code, storage, delegation data) are compared through the roots only: Exist() of a live object may report an unjournaled blank object that no trie holds",
 		"RemoveValidator (no caller in the tree) and bare CreateAccount without a following journaled write (the EVM never does that) are outside the generated API surface")
 	return nil
